@@ -67,9 +67,9 @@ def install():
     orig_fpv = ph.find_phaseable_variants
 
     @functools.wraps(orig_fpv)
-    def find_phaseable_variants(family, include_homozygous, trios, variant_table):
+    def find_phaseable_variants(family, include_homozygous, trios, variant_table, *a, **kw):
         _hit("find_phaseable_variants")
-        res = orig_fpv(family, include_homozygous, trios, variant_table)
+        res = orig_fpv(family, include_homozygous, trios, variant_table, *a, **kw)
         t = _cur()
         if t is not None:
             hom, table = res
@@ -188,9 +188,9 @@ def install():
     orig_wrl = ph.write_recombination_list
 
     @functools.wraps(orig_wrl)
-    def write_recombination_list(path, chromosome, accessible_positions, overall_components, recombination_costs, transmission_vector, trios):
+    def write_recombination_list(path, chromosome, *a, **kw):
         _hit("write_recombination_list")
-        n = orig_wrl(path, chromosome, accessible_positions, overall_components, recombination_costs, transmission_vector, trios)
+        n = orig_wrl(path, chromosome, *a, **kw)
         t = _cur()
         if t is not None:
             t["recomb_calls"].append({"chromosome": chromosome, "n": n, "family": (_inst() or {}).get("family")})
@@ -201,14 +201,14 @@ def install():
     orig_wcg = ph.write_changed_genotypes
 
     @functools.wraps(orig_wcg)
-    def write_changed_genotypes(path, changed):
+    def write_changed_genotypes(path, changed, *a, **kw):
         _hit("write_changed_genotypes")
         t = _cur()
         if t is not None:
             t["gtchange_calls"].append(
                 [(c.sample, c.chromosome, c.variant.position, repr(c.old_gt), repr(c.new_gt)) for c in changed]
             )
-        return orig_wcg(path, changed)
+        return orig_wcg(path, changed, *a, **kw)
 
     ph.write_changed_genotypes = write_changed_genotypes
 
